@@ -55,6 +55,7 @@ pub fn run(args: &Args) {
             }
             return;
         }
+        if case.trim() == "deadline" { super::c03::deadline::replay(); return; }
         let sc = Script::parse(case);
         match rt.block_on(run_script_ticks(&sc, ROUNDS)) {
             Some(o) => { for (i, l) in o.lines { println!("ops: {i}\nimpl: {l}"); } for t in o.tags { println!("tag {t}"); } for (s, d) in o.fails { println!("ORACLE-FAIL {s} {d}"); } }
@@ -63,6 +64,8 @@ pub fn run(args: &Args) {
         return;
     }
     let mut run = Run::new("c11", &args.out);
+    // run loops left alone until their handshake deadline (30 s of real time), concurrently with everything below
+    let deadline = super::c03::deadline::spawn_deadline_sessions();
     let mut rng = Rng::new(args.seed);
     let all = scripts(args.tier_thorough, &mut rng);
     // sessions wait for real retransmission timers (1 s each): run them concurrently in batches
@@ -113,5 +116,6 @@ pub fn run(args: &Args) {
         }
     }
     run.notes.insert("rounds".into(), serde_json::json!(ROUNDS));
+    super::c03::deadline::record(&mut run, deadline);
     run.finish();
 }
